@@ -152,3 +152,11 @@ Theorem C01_cumsum_rule_is_adjoint :
       /\ length (Stats.cumsum_vjp K k0 kadd g) = length g.
 Proof. exact StatsProof.cumsum_adjoint. Qed.
 Print Assumptions C01_cumsum_rule_is_adjoint.
+
+(* np.linalg.norm, 2-norm of a vector / Frobenius norm of a matrix, at x <> 0 (fibre of any length) *)
+Theorem C01_norm_rule_exact :
+  forall x v g, length x = length v -> 0 < StatsProof.rsumsq x ->
+    is_derive (fun t => sqrt (StatsProof.rsumsq (StatsProof.line x v t))) 0 (StatsProof.rnorm_jvp x v (sqrt (StatsProof.rsumsq x)))
+    /\ StatsProof.rdot (StatsProof.rnorm_vjp x (sqrt (StatsProof.rsumsq x)) g) v = g * StatsProof.rnorm_jvp x v (sqrt (StatsProof.rsumsq x)).
+Proof. intros x v g H Hp. split; [exact (StatsProof.norm_jvp_exact x v H Hp) | exact (StatsProof.norm_vjp_exact x v g H Hp)]. Qed.
+Print Assumptions C01_norm_rule_exact.
